@@ -596,6 +596,16 @@ func (env *SpecEnv) evalCall(x *ECall) specVal {
 				bound = env.old.st.alloc
 			}
 			return specVal{v: leaf(c.And(c.Neq(v, c.Nil()), c.Ge(c.Root(v), bound), c.Eq(c.PathOf(v), c.PNil()))), t: types.Typ[types.Bool]}
+		case "freshroot":
+			v := env.evalTerm(x.Args[0])
+			if v.Sort == SSlice {
+				v = c.SArr(v)
+			}
+			bound := env.st.alloc
+			if env.old != nil {
+				bound = env.old.st.alloc
+			}
+			return specVal{v: leaf(c.Ge(c.Root(v), bound)), t: types.Typ[types.Bool]}
 		case "root":
 			v := env.evalTerm(x.Args[0])
 			if v.Sort == SSlice {
@@ -841,7 +851,7 @@ func (env *SpecEnv) iterKey(j *Term) specVal {
 			if it := env.st.iters[nx.Iter]; it != nil {
 				ks := u.mapKeySort(it.mt)
 				keys, _ := u.mapEnumFns(ks)
-				return specVal{v: leaf(u.c.App(keys, it.dom, j)), t: it.mt.Key()}
+				return specVal{v: leaf(u.c.App(keys, it.id, j)), t: it.mt.Key()}
 			}
 		}
 	}
